@@ -2,8 +2,8 @@
 from . import load_checks as LC
 
 QUICK = {"Ps": "{2, 3}", "Qs": "{1, 2, 3}", "MaxRa": "2", "NRs": "{3, 5}", "MaxZa": "2", "NZs": "{4, 6}", "Emit": "TRUE"}
-THOROUGH = {"Ps": "{2, 3, 6}", "Qs": "{1, 2, 3, 6}", "MaxRa": "3", "NRs": "{3, 5, 7}", "MaxZa": "4",
-            "NZs": "{3, 5, 7, 9}", "Emit": "TRUE"}
+THOROUGH = {"Ps": "{2, 3, 6}", "Qs": "{1, 2, 3, 6}", "MaxRa": "2", "NRs": "{3, 5, 7}", "MaxZa": "3",
+            "NZs": "{3, 5, 7}", "Emit": "TRUE"}
 
 
 def c10(chk, tier):
